@@ -10,7 +10,7 @@ from fractions import Fraction
 from .. import apirun, common
 
 PID = "C20"
-MODULES = ["GroupbyVerif.Props.C20", "GroupbyVerif.LoopBridge.NbReduce"]
+MODULES = ["GroupbyVerif.Props.C20", "GroupbyVerif.LoopBridge.NbReduce", "GroupbyVerif.LoopBridge.Dot", "GroupbyVerif.LoopBridge.IsNull"]
 RULE = ("nanops: exhaustive null placements for float arrays of length 1..8 (quick) / 1..12 (thorough) x threads 1..8 x {nansum nanmean nanmin nanmax nanvar "
         "nanstd count} plus seeded random float/int64/int32 arrays up to length 40 and 2-D arrays (both axes, sum/min/max); oracle NumPy's nan-functions "
         "(exact rational arithmetic for mean/var on small integers) and the Lean model of reduce_1d for sum/min/max/count; nb_dot: random int/float matrices "
